@@ -46,6 +46,18 @@ Lookup(x, pts) ==
              x0 == pts[k][1]  y0 == pts[k][2]  x1 == pts[k + 1][1]  y1 == pts[k + 1][2]
          IN Add(y0, Div(Mul(Sub(y1, y0), Sub(x, x0)), Sub(x1, x0)))
 
+\* the other two XMILE graphical-function types: "extrapolate" continues the first / last segment beyond the end points,
+\* "discrete" holds the value of the point at or to the left of x (clamped outside)
+LookupX(x, pts) ==
+    IF ~IsDef(x) THEN Undef
+    ELSE LET n == Len(pts)
+             seg(k) == Add(pts[k][2], Div(Mul(Sub(pts[k + 1][2], pts[k][2]), Sub(x, pts[k][1])), Sub(pts[k + 1][1], pts[k][1])))
+         IN IF Lt(x, pts[1][1]) THEN seg(1) ELSE IF Lt(pts[n][1], x) THEN seg(n - 1) ELSE Lookup(x, pts)
+LookupD(x, pts) ==
+    IF ~IsDef(x) THEN Undef
+    ELSE IF Lt(x, pts[1][1]) THEN pts[1][2]
+    ELSE pts[CHOOSE j \in 1..Len(pts) : Le(pts[j][1], x) /\ (j = Len(pts) \/ Lt(x, pts[j + 1][1]))][2]
+
 \* value of every element at grid index k, given the stock-like state at k
 \* XMILE time built-ins over the same input c1 (beyond the listed properties; replayed by the extension check X01):
 \*   STEP(h, t0) switches at t >= t0;  RAMP(h, t0) = h*(t - t0) after t0;  DELAY(c1, dn*dt [, dinit]);  SMTH1(c1, T [, sinit])
@@ -62,6 +74,7 @@ Row(k, vs1, vs2, vs3, vs4, vsm, vav, h) ==
         fout == Clamp(Mul(P.q, vs1))
     IN [t |-> T(k), c1 |-> c1, fin |-> Clamp(c1), bf |-> c1, fout |-> fout, fo2 |-> Clamp(P.g), s1 |-> vs1, s2 |-> vs2, s3 |-> vs3, s4 |-> vs4,
         lkt |-> Lookup(T(k), P.pts), lks |-> Lookup(vs1, P.pts),
+        lkx |-> LookupX(T(k), P.pts), lkd |-> LookupD(T(k), P.pts), lkxs |-> LookupX(vs1, P.pts),
         dl |-> IF k >= P.dn THEN h[k - P.dn + 1] ELSE IF P.dinit = None THEN h[1] ELSE P.dinit,
         sm |-> vsm,
         tr |-> Div(Sub(c1, vav), Mul(vav, P.T)),
